@@ -169,15 +169,114 @@ pub open spec fn lex_post(s: Seq<char>, r: Result<Option<TokenData>>, t2: Seq<ch
 '''
 
 SCANNER_SPECS = r'''
-pub open spec fn peculiar_post(c: char, t: Seq<char>, r: Result<Option<TokenData>>, t2: Seq<char>) -> bool { true }
-pub open spec fn number_post(c: char, t: Seq<char>, r: Result<Option<TokenData>>, t2: Seq<char>) -> bool { true }
-pub open spec fn string_post(t: Seq<char>, r: Result<Option<TokenData>>, t2: Seq<char>) -> bool { true }
-pub open spec fn quoted_post(t: Seq<char>, r: Result<Option<TokenData>>, t2: Seq<char>) -> bool { true }
+/// R7RS <dot subsequent> (<sign subsequent> | .) -- what may follow the sign or dot of a peculiar identifier
+pub open spec fn is_dot_subsequent(c: char) -> bool { is_initial(c) || c == '+' || c == '-' || c == '.' || c == '@' }
+/// how many characters of t continue a peculiar identifier: a <dot subsequent> followed by <subsequent>s, or none
+pub open spec fn peculiar_len(t: Seq<char>) -> int {
+    if t.len() > 0 && is_dot_subsequent(t[0]) { run_len(t, |c: char| is_subsequent(c)) as int } else { 0 }
+}
+/// a peculiar identifier (+ - ... and those starting with a sign or a dot): c and the continuation, ending at a delimiter
+pub open spec fn peculiar_post(c: char, t: Seq<char>, r: Result<Option<TokenData>>, t2: Seq<char>) -> bool {
+    let n = peculiar_len(t);
+    if at_delim(t.skip(n)) {
+        r matches Ok(Some(TokenData::Identifier(s))) && s@ == seq![c] + t.take(n) && t2 == t.skip(n)
+    } else { r is Err }
+}
+/// the scanner consumed a prefix of t, leaving t2, and appended exactly the consumed characters to the literal
+pub open spec fn ate(t: Seq<char>, t2: Seq<char>, lit0: Seq<char>, lit1: Seq<char>) -> bool {
+    let k = t.len() - t2.len();
+    0 <= k <= t.len() && t2 == t.skip(k) && lit1 == lit0 + t.take(k)
+}
+pub broadcast proof fn lemma_ate_trans(t: Seq<char>, t2: Seq<char>, t3: Seq<char>, l0: Seq<char>, l1: Seq<char>, l2: Seq<char>)
+    requires #[trigger] ate(t, t2, l0, l1), #[trigger] ate(t2, t3, l1, l2),
+    ensures ate(t, t3, l0, l2),
+{
+    let k1 = t.len() - t2.len(); let k2 = t2.len() - t3.len();
+    assert(t.skip(k1).skip(k2) =~= t.skip(k1 + k2));
+    assert(t.take(k1) + t.skip(k1).take(k2) =~= t.take(k1 + k2));
+    assert(l0 + t.take(k1) + t.skip(k1).take(k2) =~= l0 + (t.take(k1) + t.skip(k1).take(k2)));
+}
+pub proof fn lemma_ate_one(t: Seq<char>, l0: Seq<char>)
+    requires t.len() > 0,
+    ensures ate(t, t.skip(1), l0, l0.push(t[0])), ate(t, t, l0, l0),
+{
+    assert(t.take(1) =~= seq![t[0]]);
+    assert(l0 + t.take(1) =~= l0.push(t[0]));
+    assert(t.skip(0) =~= t); assert(l0 + t.take(0) =~= l0);
+}
+/// what str::parse::<T> makes of a text (std; uninterpreted here: the decimal value for the integer types)
+pub uninterp spec fn parsed<T>(s: Seq<char>) -> Option<T>;
+/// a number token that starts with c (a digit or a sign) followed by t
+pub open spec fn number_post(c: char, t: Seq<char>, r: Result<Option<TokenData>>, t2: Seq<char>) -> bool {
+    let d = run_len(t, |c: char| is_digit(c)) as int;
+    let lit = seq![c] + t.take(d);
+    let after = t.skip(d);
+    if after.len() > 0 && after[0] == '/' {
+        // ratio: digits '/' digits, ending at a delimiter; the denominator is not zero
+        let d2 = run_len(after.skip(1), |c: char| is_digit(c)) as int;
+        let den = after.skip(1).take(d2);
+        let rest = after.skip(1).skip(d2);
+        match (parsed::<i32>(lit), parsed::<u32>(den)) {
+            (Some(n), Some(m)) => if at_delim(rest) && m != 0 { ok_token(r, TokenData::Primitive(Primitive::Rational(n, m))) && t2 == rest } else { r is Err },
+            _ => r is Err,
+        }
+    } else if after.len() > 0 && (after[0] == '.' || after[0] == 'e') {
+        // decimal: the token is the text consumed, and it ends at a delimiter
+        r matches Ok(tok) ==> tok matches Some(TokenData::Primitive(Primitive::Real(s))) && ate(t, t2, seq![c], s@) && at_delim(t2)
+    } else {
+        // integer: sign and digits, ending at a delimiter
+        match parsed::<i32>(lit) {
+            Some(n) => if at_delim(after) { ok_token(r, TokenData::Primitive(Primitive::Integer(n))) && t2 == after } else { r is Err },
+            None => r is Err,
+        }
+    }
+}
+/// R7RS mnemonic escapes (and \" \\ \|) inside a string
+pub open spec fn escape_char(c: char) -> Option<char> {
+    if c == 'a' { Some('\u{7}') } else if c == 'b' { Some('\u{8}') } else if c == 't' { Some('\u{9}') }
+    else if c == 'n' { Some('\n') } else if c == 'r' { Some('\r') }
+    else if c == '"' { Some('"') } else if c == '\\' { Some('\\') } else if c == '|' { Some('|') }
+    else { None }
+}
+pub enum StrScan { Done(Seq<char>, Seq<char>), Bad, Unspecified }
+/// scanning a string body after the opening quote: Done(contents, text after the closing quote); Bad: not terminated, or an
+/// unknown escape; Unspecified: the escapes \x.. and \<space>, which this lexer does not translate (stated, not claimed)
+pub open spec fn scan_string(t: Seq<char>, acc: Seq<char>) -> StrScan
+    decreases t.len()
+{
+    if t.len() == 0 { StrScan::Bad }
+    else if t[0] == '"' { StrScan::Done(acc, t.skip(1)) }
+    else if t[0] == '\\' {
+        if t.len() < 2 { StrScan::Bad }
+        else if t[1] == 'x' || t[1] == ' ' { StrScan::Unspecified }
+        else { match escape_char(t[1]) { Some(e) => scan_string(t.skip(2), acc.push(e)), None => StrScan::Bad } }
+    } else { scan_string(t.skip(1), acc.push(t[0])) }
+}
+/// a string literal: every character stands for itself, an escape for the character R7RS assigns to it; it ends at the
+/// first unescaped double quote, which is consumed
+pub open spec fn string_post(t: Seq<char>, r: Result<Option<TokenData>>, t2: Seq<char>) -> bool {
+    match scan_string(t, Seq::<char>::empty()) {
+        StrScan::Done(contents, rest) => r matches Ok(Some(TokenData::Primitive(Primitive::String(s)))) && s@ == contents && t2 == rest,
+        StrScan::Bad => r is Err,
+        StrScan::Unspecified => true,
+    }
+}
+/// |...|: the identifier is the text up to the next vertical line, which is consumed; without one it is an error
+pub open spec fn quoted_post(t: Seq<char>, r: Result<Option<TokenData>>, t2: Seq<char>) -> bool {
+    let n = run_len(t, |c: char| c != '|') as int;
+    if n < t.len() { r matches Ok(Some(TokenData::Identifier(s))) && s@ == t.take(n) && t2 == t.skip(n + 1) }
+    else { r is Err }
+}
 '''
 
 UNIT = copy.deepcopy(_pos.UNIT)
 UNIT["props"] = ["C06"]
-UNIT["prelude"] = PRELUDE.replace("/*SCANNER_SPECS*/", SCANNER_SPECS)
+UNIT["prelude"] = PRELUDE.replace("/*SCANNER_SPECS*/", SCANNER_SPECS).replace(
+    "pub assume_specification<F: core::str::FromStr>[ str::parse::<F> ](s: &str) -> (r: core::result::Result<F, F::Err>);",
+    "pub assume_specification<F: core::str::FromStr>[ str::parse::<F> ](s: &str) -> (r: core::result::Result<F, F::Err>)\n"
+    "    ensures match parsed::<F>(s@) { Some(v) => r == Ok::<F, F::Err>(v), None => r is Err };")
+assert "parsed::<F>(s@)" in UNIT["prelude"]
+UNIT["trusted"]["parse"] = "ASSUMED std contract: str::parse::<T> is a function of the text (parsed::<T>, uninterpreted: the decimal value for i32/u32)"
 UNIT["rlimit"] = 60
 
 
@@ -337,3 +436,183 @@ M["comment"].update({
 M["advance"]["contract"] = M["advance"]["contract"].replace(
     "            &&& count == 0 ==> *r == old(self).current",
     "            &&& final(self).current == *final(r)\n            &&& count == 0 ==> *r == old(self).current")
+
+
+M["quoted_identifier"].update({
+    "sig_rewrites": [("S1", r"-> Result<Option<TokenData>>$", "-> (r: Result<Option<TokenData>>)")],
+    "contract": """        requires wf_lexer(*old(self)),
+        ensures """ + WF + """
+            quoted_post(rem(old(self).peekable_char_stream), r, rem(final(self).peekable_char_stream)),""",
+    "loops": {1: {"expect_kw": "loop", "invariant": """            invariant wf_lexer(*self), rem(self.peekable_char_stream).len() <= rem(old(self).peekable_char_stream).len(),
+                ({ let t = rem(old(self).peekable_char_stream);
+                   let k = t.len() - rem(self.peekable_char_stream).len();
+                   &&& 0 <= k <= t.len()
+                   &&& rem(self.peekable_char_stream) == t.skip(k)
+                   &&& identifier_str@ == t.take(k)
+                   &&& forall|i: int| 0 <= i < k ==> #[trigger] t[i] != '|' }),
+            decreases rem(self.peekable_char_stream).len(),""",
+                  "body_start": """            proof {
+                let t = rem(old(self).peekable_char_stream);
+                let k = t.len() - rem(self.peekable_char_stream).len();
+                lemma_run_len_prefix(t, |c: char| c != '|', k);
+                lemma_run_len_bound(t.skip(k), |c: char| c != '|');
+                if k < t.len() {
+                    assert(t.skip(k)[0] == t[k]);
+                    assert(t.take(k + 1) =~= t.take(k).push(t[k]));
+                    assert(t.skip(k).skip(1) =~= t.skip(k + 1));
+                } else { assert(t.take(k) =~= t); }
+            }"""}}})
+
+
+M["string"].update({
+    "sig_rewrites": [("S1", r"-> Result<Option<TokenData>>$", "-> (r: Result<Option<TokenData>>)")],
+    "contract": """        requires wf_lexer(*old(self)),
+        ensures """ + WF + """
+            old(self).current is Some ==> string_post(rem(old(self).peekable_char_stream), r, rem(final(self).peekable_char_stream)),""",
+    "loops": {1: {"expect_kw": "loop", "invariant": """            invariant wf_lexer(*self), rem(self.peekable_char_stream).len() <= rem(old(self).peekable_char_stream).len(),
+                scan_string(rem(old(self).peekable_char_stream), Seq::<char>::empty()) is Unspecified
+                    || scan_string(rem(old(self).peekable_char_stream), Seq::<char>::empty())
+                        == scan_string(rem(self.peekable_char_stream), string_literal@),
+            decreases rem(self.peekable_char_stream).len(),""",
+                  "body_start": """                    proof {
+                        let tr = rem(self.peekable_char_stream);
+                        if tr.len() >= 2 { assert(tr.skip(1).skip(1) =~= tr.skip(2)); }
+                    }"""}}})
+
+
+ATE = "ate(rem(old(self).peekable_char_stream), rem(final(self).peekable_char_stream), old(number_literal)@, final(number_literal)@)"
+M["parse_number"].update({
+    "sig_rewrites": [("S1", r"-> Result<T>$", "-> (r: Result<T>)")],
+    "contract": "        ensures match parsed::<T>(literal@) { Some(v) => r == Ok::<T, SchemeError>(v), None => r is Err },"})
+M["digital10"]["contract"] += "\n            " + ATE + ","
+M["number_suffix"].update({
+    "sig_rewrites": [("S1", r"-> Result<\(\)>$", "-> (r: Result<()>)")],
+    "contract": """        requires wf_lexer(*old(self)), rem(old(self).peekable_char_stream).len() > 0, rem(old(self).peekable_char_stream)[0] == 'e',
+        ensures """ + WF + """
+            // C06: the literal grows by exactly the characters consumed, and on success the number ends at a delimiter
+            """ + ATE + """,
+            r is Ok ==> at_delim(rem(final(self).peekable_char_stream)),""",
+    "inserts": [(r"self\.advance\(1\);\s*number_literal\.push\('e'\);", """        proof {
+            broadcast use lemma_ate_trans;
+            let t = rem(old(self).peekable_char_stream);
+            lemma_ate_one(t, old(number_literal)@);
+            if rem(self.peekable_char_stream).len() > 0 { lemma_ate_one(rem(self.peekable_char_stream), number_literal@); }
+        }""")]})
+
+M["real"].update({
+    "sig_rewrites": [("S1", r"-> Result<\(\)>$", "-> (r: Result<()>)")],
+    "contract": """        requires wf_lexer(*old(self)), rem(old(self).peekable_char_stream).len() > 0, rem(old(self).peekable_char_stream)[0] == '.',
+        ensures """ + WF + """
+            """ + ATE + """,
+            r is Ok ==> at_delim(rem(final(self).peekable_char_stream)),""",
+    "inserts": [(r"number_literal\.push\('\.'\);", """        broadcast use lemma_ate_trans;""", None, "before"),
+                (r"number_literal\.push\('\.'\);\s*self\.advance\(1\);", """        proof {
+            let t = rem(old(self).peekable_char_stream);
+            lemma_ate_one(t, old(number_literal)@);
+            if rem(self.peekable_char_stream).len() > 0 { lemma_ate_one(rem(self.peekable_char_stream), number_literal@); }
+        }""")]})
+
+M["number"].update({
+    "contract": """        requires wf_lexer(*old(self)),
+        ensures """ + WF + """
+            // a ratio literal never has denominator 0 (relied upon by eval_primitive)
+            r matches Ok(Some(TokenData::Primitive(Primitive::Rational(_, d)))) ==> d != 0,
+            match old(self).current {
+                None => r == Ok::<Option<TokenData>, SchemeError>(None),
+                Some(c) => number_post(c, rem(old(self).peekable_char_stream), r, rem(final(self).peekable_char_stream)),
+            },""",
+    "loops": {1: {"expect_kw": "loop", "invariant": """            invariant wf_lexer(*self), rem(self.peekable_char_stream).len() <= rem(old(self).peekable_char_stream).len(),
+                old(self).current == Some(c),
+                ({ let t = rem(old(self).peekable_char_stream);
+                   let k = t.len() - rem(self.peekable_char_stream).len();
+                   &&& ate(t, rem(self.peekable_char_stream), seq![c], number_literal@)
+                   &&& forall|i: int| 0 <= i < k ==> is_digit(#[trigger] t[i]) }),
+            decreases rem(self.peekable_char_stream).len(),""",
+                  "body_start": """                    broadcast use lemma_ate_trans;
+                    proof {
+                        let t = rem(old(self).peekable_char_stream);
+                        let k = t.len() - rem(self.peekable_char_stream).len();
+                        lemma_run_len_prefix(t, |c: char| is_digit(c), k);
+                        lemma_run_len_bound(t.skip(k), |c: char| is_digit(c));
+                        if k < t.len() { assert(t.skip(k)[0] == t[k]); lemma_ate_one(t.skip(k), number_literal@); }
+                        else { assert(t.take(k) =~= t); }
+                        let n2 = run_len(t.skip(k), |c: char| is_digit(c)) as int;
+                        assert forall|i: int| 0 <= i < k + n2 implies is_digit(#[trigger] t[i]) by {
+                            if i >= k { assert(t.skip(k)[i - k] == t[i]); }
+                        }
+                    }"""}},
+    "inserts": [(r"number_literal\.push\(c\);", """                proof {
+                    let t = rem(old(self).peekable_char_stream);
+                    assert(t.skip(0) =~= t); assert(seq![c] + t.take(0) =~= seq![c]);
+                    assert(number_literal@ =~= seq![c]);
+                }""")]})
+
+
+M["dot_subsequent"].update({
+    "attrs": "#[verifier::loop_isolation(false)]\n#[verifier::allow_complex_invariants]",
+    "sig_rewrites": [("S1", r"-> Result<\(\)>$", "-> (r: Result<()>)")],
+    "contract": """        requires wf_lexer(*old(self)),
+        ensures """ + WF + """
+            ({ let t = rem(old(self).peekable_char_stream); let n = peculiar_len(t);
+               if at_delim(t.skip(n)) {
+                   r is Ok && rem(final(self).peekable_char_stream) == t.skip(n)
+                       && final(identifier_str)@ == old(identifier_str)@ + t.take(n)
+               } else { r is Err } }),""",
+    "loops": {1: {"expect_kw": "loop", "invariant": """            invariant wf_lexer(*self), rem(self.peekable_char_stream).len() <= rem(old(self).peekable_char_stream).len(),
+                ({ let t = rem(old(self).peekable_char_stream);
+                   let k = t.len() - rem(self.peekable_char_stream).len();
+                   &&& 0 <= k <= t.len()
+                   &&& t.len() > 0 && is_dot_subsequent(t[0])
+                   &&& rem(self.peekable_char_stream) == t.skip(k)
+                   &&& identifier_str@ == old(identifier_str)@ + t.take(k)
+                   &&& run_len(t, |c: char| is_subsequent(c)) == k + run_len(t.skip(k), |c: char| is_subsequent(c))
+                   &&& forall|i: int| 0 <= i < k ==> is_subsequent(#[trigger] t[i]) }),
+            ensures at_delim(rem(self.peekable_char_stream)),
+            decreases rem(self.peekable_char_stream).len(),""",
+                  "body_start": """                    proof {
+                        let t = rem(old(self).peekable_char_stream);
+                        let k = t.len() - rem(self.peekable_char_stream).len();
+                        lemma_run_len_prefix(t, |c: char| is_subsequent(c), k);
+                        if k < t.len() {
+                            assert(t.skip(k)[0] == t[k]);
+                            assert(t.take(k + 1) =~= t.take(k).push(t[k]));
+                            assert(t.skip(k).skip(1) =~= t.skip(k + 1));
+                            assert((old(identifier_str)@ + t.take(k)).push(t[k]) =~= old(identifier_str)@ + t.take(k + 1));
+                            if is_subsequent(t[k]) { lemma_run_len_prefix(t, |c: char| is_subsequent(c), k + 1); }
+                        } else { assert(t.take(k) =~= t); }
+                    }"""}},
+    "inserts": [(r"if let Some\(c\) = self\.peekable_char_stream\.peek\(\) \{", """        proof {
+            let t = rem(self.peekable_char_stream);
+            assert(t.skip(0) =~= t); assert(identifier_str@ + t.take(0) =~= identifier_str@);
+        }""", None, "before")]})
+
+M["percular_identifier"].update({
+    "sig_rewrites": [("S1", r"-> Result<Option<TokenData>>$", "-> (r: Result<Option<TokenData>>)")],
+    "contract": """        requires wf_lexer(*old(self)),
+            // the call sites in try_next: after a sign that is not followed by a digit or a dot, or after a dot that is
+            // not followed by a delimiter
+            old(self).current matches Some(c) ==> (c == '.' || ((c == '+' || c == '-')
+                && !(rem(old(self).peekable_char_stream).len() > 0 && rem(old(self).peekable_char_stream)[0] == '.'))),
+        ensures """ + WF + """
+            match old(self).current {
+                None => r == Ok::<Option<TokenData>, SchemeError>(None),
+                Some(c) => peculiar_post(c, rem(old(self).peekable_char_stream), r, rem(final(self).peekable_char_stream)),
+            },""",
+    "inserts": [(r"identifier_str\.push\(c\);", """                proof {
+                    let t = rem(self.peekable_char_stream);
+                    assert(t.skip(0) =~= t); assert(seq![c] + t.take(0) =~= seq![c]);
+                    assert(identifier_str@ =~= seq![c]);
+                }""")]})
+
+# <Lexer as Iterator>::next (rule X11): the token it yields is try_next's, stamped with the position
+for _it in UNIT["items"]:
+    if _it.get("kind") == "impl" and "Iterator for" in _it.get("impl", ""):
+        _it["methods"]["next"]["contract"] = """        requires wf_lexer(*old(self)),
+        ensures
+            wf_lexer(*final(self)),
+            ({ let s = next_start(rem(old(self).peekable_char_stream), false); let t2 = rem(final(self).peekable_char_stream);
+               match r {
+                   None => lex_post(s, Ok::<Option<TokenData>, SchemeError>(None), t2),
+                   Some(Ok(tok)) => lex_post(s, Ok::<Option<TokenData>, SchemeError>(Some(tok.data)), t2),
+                   Some(Err(e)) => lex_post(s, Err::<Option<TokenData>, SchemeError>(e), t2),
+               } }),"""
